@@ -194,6 +194,7 @@ func c13Profile(tier string) *eng.Profile {
 		up(core.Call{F: "Put", B: bKV, K: "a", V: "x"}),
 		up(core.Call{F: "RPush", B: bL, K: "k", Vs: []string{"a"}}),
 		up(core.Call{F: "RPush", B: bL, K: "k", Vs: []string{"b"}}),
+		up(core.Call{F: "RPush", B: bL, K: "j", Vs: []string{"p"}}),
 		up(core.Call{F: "SAdd", B: bS, K: "k", Vs: []string{"m"}}),
 		up(core.Call{F: "SAdd", B: bS, K: "j", Vs: []string{"n"}}),
 		up(core.Call{F: "SAdd", B: bS, K: "j", Vs: []string{"m"}}),
@@ -204,6 +205,7 @@ func c13Profile(tier string) *eng.Profile {
 		{F: "RPush", B: bL, K: "k", Vs: []string{"d"}}, {F: "LPush", B: bL, K: "k", Vs: []string{"e"}},
 		{F: "LPop", B: bL, K: "k"}, {F: "RPop", B: bL, K: "k"}, {F: "LRem", B: bL, K: "k", I: 0, V: "a"},
 		{F: "LSet", B: bL, K: "k", I: 0, V: "w"}, {F: "LTrim", B: bL, K: "k", I: 0, J: 0},
+		{F: "LSet", B: bL, K: "k", I: 1, V: "v"}, {F: "LTrim", B: bL, K: "k", I: 1, J: -1}, {F: "LSet", B: bL, K: "j", I: 0, V: "u"},
 		{F: "LRange", B: bL, K: "k", I: 0, J: -1}, {F: "LSize", B: bL, K: "k"}, {F: "LPeek", B: bL, K: "k"}, {F: "RPeek", B: bL, K: "k"},
 	}
 	set := []core.Call{
@@ -223,7 +225,7 @@ func c13Profile(tier string) *eng.Profile {
 		{F: "Get", B: bKV, K: "a"}, {F: "GetAll", B: bKV}, {F: "PrefixScan", B: bKV, K: "", I: 0, J: -1}, {F: "RangeScan", B: bKV, K: "", K2: "z"},
 	}
 	var dep []core.Op
-	nMut := map[string]int{"l": 7, "s": 5, "z": 5, "kv": 2}
+	nMut := map[string]int{"l": 10, "s": 5, "z": 5, "kv": 2}
 	for name, calls := range map[string][]core.Call{"l": lst, "s": set, "z": zs, "kv": kv} {
 		_ = name
 		for i := 0; i < nMut[name]; i++ {
@@ -247,7 +249,7 @@ func c13Profile(tier string) *eng.Profile {
 	if tier == "thorough" {
 		// three-call bodies: mutator, mutator, reader for lists and sorted sets
 		for _, grp := range [][]core.Call{lst, zs} {
-			nm := 7
+			nm := 10
 			if grp[0].F == "ZAdd" {
 				nm = 5
 			}
